@@ -102,7 +102,7 @@ def cases(tier, seed):
             continue
         out.append({"input": {"kind": "program", "text": text, "monomials": monos}, "N": 4, "kmax": kmax})
     for kv in GC_GRID:
-        for k in (3, 4, 5) if tier != "quick" else (3, 4):
+        for k in (3, 4, 5):
             if any(kv[j] != 0 for j in range(k + 1, 6)):
                 continue
             out.append({"input": {"kind": "gram_charlier", "cumulants": [str(kv[j]) for j in range(1, k + 1)]}})
